@@ -81,9 +81,15 @@ class Agg:
             if sum(1 for g in self.failures if (g["obligation"], g["known"]) == key) < 12:
                 self.failures.append(f)
         if keep_sample:
+            witness = None
+            try:  # one concrete member of the set of runs this path stands for
+                if ctx.feasible():
+                    witness = ctx._model_inputs(ctx.model)
+            except BaseException:
+                witness = None
             self.samples.append(dict(decisions=_short(ctx.decisions), tags=sorted(set(ctx.tags)),
                                      obligations=[f"{n}:{s}" for n, s in ctx.results][:40],
-                                     notes=ctx.notes))
+                                     one_concrete_instance_of_this_path=witness))
 
     def merge(self, o):
         self.paths += o.paths
